@@ -310,6 +310,20 @@ func vfCredShapes() []vfCredShape {
 		l := w.vfIssueRoleCert(vfAutoUser, vfKeys.userEC.Public(), vfRoleCIDR)
 		return l, vfOutsideAddr, vfTruth{Kind: "ipcert"}
 	})
+	// netblocks that do not end on an octet boundary: the last, partially
+	// significant octet decides who is inside
+	cert("rolecert-slash28-inside-automation", func(w *vfWorld) (*x509.Certificate, string, vfTruth) {
+		l := w.vfIssueRoleCert(vfAutoUser, vfKeys.userEC.Public(), "10.20.30.16/28")
+		return l, "10.20.30.17:5555", vfTruth{Kind: "ipcert", Valid: true, User: vfAutoUser, Level: AuthTypeIPCertificate, AuthTime: vclock.Now()}
+	})
+	cert("rolecert-slash28-below-block-automation", func(w *vfWorld) (*x509.Certificate, string, vfTruth) {
+		l := w.vfIssueRoleCert(vfAutoUser, vfKeys.userEC.Public(), "10.20.30.16/28")
+		return l, "10.20.30.5:5555", vfTruth{Kind: "ipcert"}
+	})
+	cert("rolecert-slash12-below-block-automation", func(w *vfWorld) (*x509.Certificate, string, vfTruth) {
+		l := w.vfIssueRoleCert(vfAutoUser, vfKeys.userEC.Public(), "172.16.0.0/12")
+		return l, "172.0.0.9:5555", vfTruth{Kind: "ipcert"}
+	})
 	cert("rolecert-outside-named-alice", func(w *vfWorld) (*x509.Certificate, string, vfTruth) {
 		l := w.vfIssueRoleCert(target, vfKeys.userEC.Public(), vfRoleCIDR)
 		return l, vfOutsideAddr, vfTruth{Kind: "ipcert"}
